@@ -177,6 +177,13 @@ func stallPeer(kind, point, addr string, first []byte) (func(), error) {
 		}
 	case "tlshello":
 		_, _ = c.Write([]byte{0x16, 0x03, 0x01, 0x02, 0x00, 0x01})
+	case "starttlshello":
+		// the peer completes both handshake requests asking for StartTLS, gets its 101, and then stalls inside
+		// the TLS hello: the real client code runs on a connection that swallows the first TLS record for ever
+		go func() {
+			_, _ = socketace.NewClientConnection(&tlsStallConn{Conn: c}, &cert.ClientConfig{InsecureSkipVerify: true}, false, "localhost")
+		}()
+		time.Sleep(300 * time.Millisecond)
 	case "afterupgrade":
 		var cc net.Conn = c
 		if kind == "tcptls" {
@@ -192,6 +199,17 @@ func stallPeer(kind, point, addr string, first []byte) (func(), error) {
 	}
 	_ = c.SetDeadline(time.Time{})
 	return closeFn, nil
+}
+
+// tlsStallConn passes the text handshake through and blocks for ever on the first TLS handshake record it is
+// asked to write (content type 0x16).
+type tlsStallConn struct{ net.Conn }
+
+func (t *tlsStallConn) Write(p []byte) (int, error) {
+	if len(p) > 0 && p[0] == 0x16 {
+		select {}
+	}
+	return t.Conn.Write(p)
 }
 
 func stallOnce(kind, point string, m int, d time.Duration) (string, string) {
@@ -243,6 +261,7 @@ func (stallComp) Gen(r *Rand, tier string, emit func(string)) {
 	emit("tcp between 1")
 	emit("tcp afterupgrade 2")
 	emit("tcptls tlshello 1")
+	emit("starttls starttlshello 1")
 	emit("ws connect 2")
 	emit("udp connect 1")
 	if tier == "thorough" {
@@ -256,6 +275,7 @@ func (stallComp) Gen(r *Rand, tier string, emit func(string)) {
 		emit("tcptls afterupgrade 2")
 		emit("ws partial 5")
 		emit("wss tlshello 3")
+		emit("starttls starttlshello 5")
 		emit("udp partial 3")
 	}
 }
